@@ -1154,11 +1154,11 @@ Proof.
 Qed.
 
 (* a location that a record can hold comes back from Record.from_biopython as it was *)
-Theorem read_keeps_location : forall n circular ty l l',
-  writable circular ty l = true -> read_feature_loc n circular ty l = Ok l' -> l' = l.
+Lemma read_added_keeps_location : forall n circular ty l l',
+  writable circular ty l = true -> read_feature_added n circular ty l = Ok l' -> l' = l.
 Proof.
   intros n circular ty l l' W R. unfold writable in W. apply andb_true_iff in W. destruct W as [NF G].
-  unfold read_feature_loc in R.
+  unfold read_feature_added in R.
   destruct (n <? lend l); [discriminate|]. destruct (overlapping_exons l); [discriminate|].
   destruct (is_compound l && (lstart l =? 0) && (lend l =? n) && negb circular); [discriminate|].
   rewrite bridges_origin_plain in R. cbn [fst] in R. rewrite (remove_redundant_keeps l NF) in R.
@@ -1170,6 +1170,83 @@ Proof.
   - apply negb_true_iff in G. rewrite G in R. rewrite andb_false_r in R. injection R as <-. reflexivity.
   - injection R as <-. reflexivity.
 Qed.
+
+Lemma read_loc_inv : forall n circular ty l l', read_feature_loc n circular ty l = Ok l' ->
+  read_feature_added n circular ty l = Ok l' /\ sortable l' = true.
+Proof.
+  intros n circular ty l l' R. unfold read_feature_loc in R.
+  destruct (read_feature_added n circular ty l) as [l1|e]; cbn [bind] in R; [|discriminate].
+  destruct (sortable l1) eqn:S; [|discriminate]. injection R as <-. split; [reflexivity|exact S].
+Qed.
+
+Theorem read_keeps_location : forall n circular ty l l',
+  writable circular ty l = true -> read_feature_loc n circular ty l = Ok l' -> l' = l.
+Proof.
+  intros n circular ty l l' W R. apply read_loc_inv in R. destruct R as [R _].
+  exact (read_added_keeps_location n circular ty l l' W R).
+Qed.
+
+(* ---- what is accepted on reading can be ordered (repair of finding C10-F65) ---- *)
+Lemma sortable_cmp_key : forall s l, sortable l = true -> exists k, C04.Model.cmp_key s l = Ok k.
+Proof.
+  intros s l H. unfold sortable in H. unfold C04.Model.cmp_key.
+  destruct (bridges l); [|eexists; reflexivity].
+  destruct (split_bridging l) as [[lo hd]|e]; [|discriminate]. cbn [bind]. eexists. reflexivity.
+Qed.
+
+Lemma cmp_key_sortable : forall s l k, C04.Model.cmp_key s l = Ok k -> sortable l = true.
+Proof.
+  intros s l k H. unfold sortable. unfold C04.Model.cmp_key in H.
+  destruct (bridges l); [|reflexivity].
+  destruct (split_bridging l) as [[lo hd]|e]; [reflexivity|]. cbn [bind] in H. discriminate.
+Qed.
+
+(* every location Record.from_biopython lets into a record has a sort key *)
+Theorem read_is_sortable : forall n circular ty l l', read_feature_loc n circular ty l = Ok l' ->
+  exists k, feature_key l' = Ok k.
+Proof.
+  intros n circular ty l l' R. apply read_loc_inv in R. destruct R as [_ S].
+  exact (sortable_cmp_key 1 l' S).
+Qed.
+
+(* Feature.__lt__ (either way round, "source" or not) and CDSCollection.__lt__ answer - they do not raise - on any two
+   locations that have a sort key, hence on any two locations accepted on reading: sorted(all_features) in
+   Record.to_biopython cannot raise ValueError *)
+Theorem sortable_compare : forall a b, sortable a = true -> sortable b = true ->
+  forall src, (exists r, C04.Model.feature_lt src a b = Ok r) /\ (exists r, C04.Model.collection_lt a b = Ok r).
+Proof.
+  intros a b Ha Hb src. split.
+  - destruct (sortable_cmp_key 1 a Ha) as [ka Ka]. destruct (sortable_cmp_key 1 b Hb) as [kb Kb].
+    unfold C04.Model.feature_lt. rewrite Ka, Kb. cbn [bind].
+    destruct (C04.Model.pair_eqb ka kb && src); eexists; reflexivity.
+  - destruct (sortable_cmp_key (-1) a Ha) as [ka Ka]. destruct (sortable_cmp_key (-1) b Hb) as [kb Kb].
+    unfold C04.Model.collection_lt. rewrite Ka, Kb. cbn [bind].
+    destruct (contains a b && negb (contains b a)); [eexists; reflexivity|].
+    destruct (contains b a && negb (contains a b)); eexists; reflexivity.
+Qed.
+
+Theorem read_features_compare : forall n c1 c2 ty1 ty2 l1 l2 a b,
+  read_feature_loc n c1 ty1 l1 = Ok a -> read_feature_loc n c2 ty2 l2 = Ok b ->
+  forall src, (exists r, C04.Model.feature_lt src a b = Ok r) /\ (exists r, C04.Model.collection_lt a b = Ok r).
+Proof.
+  intros n c1 c2 ty1 ty2 l1 l2 a b Ra Rb. apply read_loc_inv in Ra. apply read_loc_inv in Rb.
+  exact (sortable_compare a b (proj2 Ra) (proj2 Rb)).
+Qed.
+
+(* the witnesses of the former finding: forward join(401..430,201..230,101..130), the reverse-strand three exons in
+   ascending order, and mixed strands out of order were accepted as misc_feature (and had no sort key); they are refused *)
+Definition W_f3 : loc := [mkPart 400 430 1; mkPart 200 230 1; mkPart 100 130 1].
+Definition W_r3 : loc := [mkPart 100 130 (-1); mkPart 200 230 (-1); mkPart 400 430 (-1)].
+Definition W_mix : loc := [mkPart 300 400 1; mkPart 100 200 (-1)].
+Lemma read_unsortable_refused :
+  read_feature_added 600 false T_misc W_f3 = Ok W_f3 /\ feature_key W_f3 = Err E_Value /\
+  read_feature_loc 600 false T_misc W_f3 = Err E_SecmetInvalid /\
+  read_feature_loc 600 true 1 W_r3 = Err E_SecmetInvalid /\ read_feature_loc 600 true T_gene W_mix = Err E_SecmetInvalid /\
+  (* still accepted: the same three reverse-strand exons as a gene on a linear record (add_gene reverses them), and two
+     exons in the 'other' order (taken for a crossing of the origin) *)
+  read_feature_loc 600 false T_gene W_r3 = Ok (rev W_r3) /\
+  read_feature_loc 600 false T_misc [mkPart 100 130 (-1); mkPart 400 430 (-1)] = Ok [mkPart 100 130 (-1); mkPart 400 430 (-1)].
+Proof. repeat split; reflexivity. Qed.
 
 (* non-vacuity / the seeded location: W_ncbi_rev is writable as a misc_feature on a circular record and is read unchanged *)
 Lemma read_ncbi_witness :
@@ -1201,37 +1278,235 @@ Qed.
 Lemma forall2_length : forall A B (R : A -> B -> Prop) l k, Forall2 R l k -> length l = length k.
 Proof. intros A B R l k H. induction H; cbn [length]; [reflexivity|]. rewrite IHForall2. reflexivity. Qed.
 
+(* weakly_sorted: every later key is not less than an earlier one (pair_lt is the lexicographic order) *)
+Lemma weakly_sorted_tail : forall k l, weakly_sorted (k :: l) = true -> weakly_sorted l = true.
+Proof.
+  intros k l H. destruct l as [|b t]; [reflexivity|]. cbn [weakly_sorted] in H.
+  apply andb_true_iff in H. exact (proj2 H).
+Qed.
+
+Lemma weakly_sorted_head : forall l k, weakly_sorted (k :: l) = true ->
+  forall y, In y l -> C04.Model.pair_lt y k = false.
+Proof.
+  induction l as [|b t IH]; intros k H y Hy; [destruct Hy|].
+  pose proof (weakly_sorted_tail _ _ H) as Ht.
+  cbn [weakly_sorted] in H. apply andb_true_iff in H. destruct H as [H1 _]. apply negb_true_iff in H1.
+  destruct Hy as [<-|Hy]; [exact H1|].
+  pose proof (IH b Ht y Hy) as H2. clear - H1 H2. unfold C04.Model.pair_lt in *. lia.
+Qed.
+
+Lemma weakly_sorted_app_inv : forall a x r, weakly_sorted (a ++ x :: r) = true ->
+  forall e, In e a -> C04.Model.pair_lt x e = false.
+Proof.
+  induction a as [|y t IH]; intros x r H e He; [destruct He|].
+  change ((y :: t) ++ x :: r) with (y :: (t ++ x :: r)) in H.
+  destruct He as [<-|He].
+  - apply (weakly_sorted_head _ _ H). apply in_or_app. right. left. reflexivity.
+  - exact (IH x r (weakly_sorted_tail _ _ H) e He).
+Qed.
+
 Lemma insert_cds_append : forall acc kacc x kx,
   Forall2 (fun l k => feature_key l = Ok k) acc kacc -> feature_key x = Ok kx ->
-  (forall ke, In ke kacc -> C04.Model.pair_lt ke kx = true) -> insert_cds (Ok acc) x = Ok (acc ++ [x]).
+  (forall ke, In ke kacc -> C04.Model.pair_lt kx ke = false) -> insert_cds (Ok acc) x = Ok (acc ++ [x]).
 Proof.
   intros acc kacc x kx HF Hx Hlt. unfold insert_cds. cbn [bind].
   destruct acc as [|a r] eqn:Ea; [reflexivity|]. rewrite <- Ea in *.
   rewrite Hx. cbn [bind]. rewrite (forall2_mapM _ _ _ _ _ HF). cbn [bind].
-  rewrite (bisect_left_all _ (fun ke => C04.Model.pair_lt ke kx) kacc Hlt).
-  rewrite <- (forall2_length _ _ _ _ _ HF). rewrite insert_at_end. reflexivity.
+  rewrite (bisect_left_all _ (fun ke => negb (C04.Model.pair_lt kx ke)) kacc).
+  - rewrite <- (forall2_length _ _ _ _ _ HF). rewrite insert_at_end. reflexivity.
+  - intros ke Hke. rewrite (Hlt ke Hke). reflexivity.
 Qed.
 
 Lemma cds_reload_gen : forall items kitems, Forall2 (fun l k => feature_key l = Ok k) items kitems ->
   forall acc kacc, Forall2 (fun l k => feature_key l = Ok k) acc kacc ->
-  strictly_sorted C04.Model.pair_lt (kacc ++ kitems) = true ->
+  weakly_sorted (kacc ++ kitems) = true ->
   fold_left insert_cds items (Ok acc) = Ok (acc ++ items).
 Proof.
   intros items kitems H. induction H as [|x kx r kr Hx Hr IH]; intros acc kacc Ha Hs; cbn [fold_left].
   - rewrite app_nil_r. reflexivity.
-  - rewrite (insert_cds_append acc kacc x kx Ha Hx (strictly_sorted_app_inv _ _ kacc kx kr Hs)).
+  - rewrite (insert_cds_append acc kacc x kx Ha Hx (weakly_sorted_app_inv kacc kx kr Hs)).
     replace (acc ++ x :: r) with ((acc ++ [x]) ++ r) by (rewrite <- app_assoc; reflexivity).
     apply (IH (acc ++ [x]) (kacc ++ [kx])).
     + apply Forall2_app; [exact Ha|apply Forall2_cons; [exact Hx|apply Forall2_nil]].
     + rewrite <- app_assoc. exact Hs.
 Qed.
 
-(* CDS features whose sort keys strictly increase are re-added in the same order *)
+(* CDS features whose sort keys never decrease - equal keys included, after the repair of C10-F47 - are re-added in
+   the same order *)
 Theorem cds_order_kept : forall locs keys, mapM feature_key locs = Ok keys ->
-  strictly_sorted C04.Model.pair_lt keys = true -> cds_reload locs = Ok locs.
+  weakly_sorted keys = true -> cds_reload locs = Ok locs.
 Proof.
   intros locs keys Hk Hs. unfold cds_reload.
   exact (cds_reload_gen locs keys (mapM_forall2 _ _ _ _ _ Hk) [] [] (Forall2_nil _) Hs).
+Qed.
+
+(* ---- the stored CDS list is a fixed point of re-adding, whatever the keys (repair of finding C10-F47) ---- *)
+Lemma bisect_go_partition : forall A (p : A -> bool) (a b : list A),
+  (forall x, In x a -> p x = true) -> (forall x, In x b -> p x = false) ->
+  forall fuel lo hi, (lo <= length a <= hi)%nat -> (hi <= length (a ++ b))%nat -> (hi - lo < fuel)%nat ->
+  C05.Model.bisect_go p (a ++ b) fuel lo hi = length a.
+Proof.
+  intros A p a b Ha Hb. induction fuel as [|f IH]; intros lo hi Hk Hhi Hf; [lia|].
+  cbn [C05.Model.bisect_go]. destruct (Nat.ltb_spec lo hi) as [Hlt|Hge]; [|lia].
+  pose proof (div2_bounds lo hi Hlt) as Hm.
+  destruct (nth_error (a ++ b) (Nat.div2 (lo + hi))) as [e|] eqn:Hn.
+  - destruct (Nat.lt_ge_cases (Nat.div2 (lo + hi)) (length a)) as [Hma|Hma].
+    + rewrite nth_error_app1 in Hn by exact Hma.
+      rewrite (Ha e (nth_error_In _ _ Hn)). apply IH; lia.
+    + rewrite nth_error_app2 in Hn by exact Hma.
+      rewrite (Hb e (nth_error_In _ _ Hn)). apply IH; lia.
+  - apply nth_error_None in Hn. lia.
+Qed.
+
+Lemma bisect_left_partition : forall A (p : A -> bool) (a b : list A),
+  (forall x, In x a -> p x = true) -> (forall x, In x b -> p x = false) ->
+  C05.Model.bisect_left p (a ++ b) = length a.
+Proof.
+  intros A p a b Ha Hb. unfold C05.Model.bisect_left. apply bisect_go_partition; auto; rewrite ?app_length; lia.
+Qed.
+
+Lemma downward_split : forall A (p : A -> bool) (l : list A),
+  (forall a x b y, l = a ++ x :: b -> In y b -> p y = true -> p x = true) ->
+  exists a b, l = a ++ b /\ (forall x, In x a -> p x = true) /\ (forall x, In x b -> p x = false).
+Proof.
+  intros A p. induction l as [|x l IH]; intros H.
+  - exists [], []. repeat split; intros ? [].
+  - destruct (p x) eqn:Hx.
+    + destruct IH as (a & b & -> & Ha & Hb).
+      { intros a0 x0 b0 y E Hy Hp. apply (H (x :: a0) x0 b0 y); [rewrite E; reflexivity|exact Hy|exact Hp]. }
+      exists (x :: a), b. repeat split; [|exact Hb]. intros z [<-|Hz]; [exact Hx|apply Ha; exact Hz].
+    + exists [], (x :: l). repeat split; [intros ? []|].
+      intros z [<-|Hz]; [exact Hx|].
+      destruct (p z) eqn:Hpz; [|reflexivity].
+      rewrite (H [] x l z eq_refl Hz Hpz) in Hx. discriminate.
+Qed.
+
+Lemma insert_at_app : forall A (x : A) a b, C05.Model.insert_at (length a) x (a ++ b) = a ++ x :: b.
+Proof.
+  intros A x a b. unfold C05.Model.insert_at. induction a as [|y t IH]; [destruct b; reflexivity|].
+  cbn [length app firstn skipn]. rewrite IH. reflexivity.
+Qed.
+
+Lemma forall2_insert_at : forall A B (R : A -> B -> Prop) x kx l k, Forall2 R l k -> R x kx ->
+  forall i, Forall2 R (C05.Model.insert_at i x l) (C05.Model.insert_at i kx k).
+Proof.
+  intros A B R x kx l k H Hx. unfold C05.Model.insert_at.
+  induction H as [|a ka r kr Ha Hr IH]; intros i.
+  - destruct i; cbn [firstn skipn app]; apply Forall2_cons; try exact Hx; apply Forall2_nil.
+  - destruct i as [|j]; cbn [firstn skipn app].
+    + apply Forall2_cons; [exact Hx|apply Forall2_cons; [exact Ha|exact Hr]].
+    + apply Forall2_cons; [exact Ha|apply IH].
+Qed.
+
+Lemma weakly_sorted_app_r : forall a b, weakly_sorted (a ++ b) = true -> weakly_sorted b = true.
+Proof.
+  induction a as [|y t IH]; intros b H; [exact H|].
+  apply IH. exact (weakly_sorted_tail y (t ++ b) H).
+Qed.
+
+Lemma weakly_sorted_cons : forall k l, weakly_sorted l = true ->
+  (forall b t, l = b :: t -> C04.Model.pair_lt b k = false) -> weakly_sorted (k :: l) = true.
+Proof.
+  intros k l Hs Hh. destruct l as [|b t]; [reflexivity|]. cbn [weakly_sorted].
+  rewrite (Hh b t eq_refl). cbn [negb andb]. exact Hs.
+Qed.
+
+Lemma weakly_sorted_insert : forall kx a b, weakly_sorted (a ++ b) = true ->
+  (forall e, In e a -> C04.Model.pair_lt kx e = false) -> (forall e, In e b -> C04.Model.pair_lt kx e = true) ->
+  weakly_sorted (a ++ kx :: b) = true.
+Proof.
+  intros kx. induction a as [|y t IH]; intros b Hs Ha Hb.
+  - cbn [app] in *. apply weakly_sorted_cons; [exact Hs|]. intros e r ->.
+    pose proof (Hb e (or_introl eq_refl)) as H. clear - H. unfold C04.Model.pair_lt in *. lia.
+  - change ((y :: t) ++ kx :: b) with (y :: (t ++ kx :: b)).
+    change ((y :: t) ++ b) with (y :: (t ++ b)) in Hs.
+    apply weakly_sorted_cons.
+    + apply IH; [exact (weakly_sorted_tail _ _ Hs)|intros e He; apply Ha; right; exact He|exact Hb].
+    + intros e r E. destruct t as [|z u]; cbn [app] in E; injection E as <- _.
+      * apply Ha. left. reflexivity.
+      * cbn [app weakly_sorted] in Hs. apply andb_true_iff in Hs. apply negb_true_iff. exact (proj1 Hs).
+Qed.
+
+(* the lists add_cds_feature can produce: at most one element (stored without any comparison), or keyed and sorted *)
+Definition cds_inv (s : list loc) : Prop :=
+  (length s <= 1)%nat \/ exists ks, Forall2 (fun l k => feature_key l = Ok k) s ks /\ weakly_sorted ks = true.
+
+Lemma insert_cds_inv : forall acc x acc', cds_inv acc -> insert_cds (Ok acc) x = Ok acc' -> cds_inv acc'.
+Proof.
+  intros acc x acc' I H. unfold insert_cds in H. cbn [bind] in H.
+  destruct acc as [|a0 r0] eqn:Ea; [injection H as <-; left; cbn [length]; lia|]. rewrite <- Ea in *.
+  destruct (feature_key x) as [kx|e] eqn:Kx; cbn [bind] in H; [|discriminate].
+  destruct (mapM feature_key acc) as [ks|e] eqn:Ks; cbn [bind] in H; [|discriminate].
+  injection H as <-.
+  pose proof (mapM_forall2 _ _ _ _ _ Ks) as F.
+  assert (S : weakly_sorted ks = true).
+  { destruct I as [L|[ks' [F' S']]].
+    - pose proof (forall2_length _ _ _ _ _ F) as E. destruct ks as [|k1 [|k2 t]]; try reflexivity.
+      cbn [length] in E. lia.
+    - rewrite (forall2_mapM _ _ _ _ _ F') in Ks. injection Ks as <-. exact S'. }
+  set (p := fun ke => negb (C04.Model.pair_lt kx ke)).
+  destruct (downward_split _ p ks) as (A & B & E & HA & HB).
+  { intros a y b z Eks Hz Hp. unfold p in *. apply negb_true_iff in Hp. apply negb_true_iff.
+    rewrite Eks in S. pose proof (weakly_sorted_head _ _ (weakly_sorted_app_r a (y :: b) S) z Hz) as H1.
+    clear - Hp H1. unfold C04.Model.pair_lt in *. lia. }
+  right. exists (C05.Model.insert_at (C05.Model.bisect_left p ks) kx ks). split.
+  - apply forall2_insert_at; [exact F|exact Kx].
+  - rewrite E. rewrite (bisect_left_partition _ p A B HA HB). rewrite insert_at_app.
+    apply weakly_sorted_insert.
+    + rewrite <- E. exact S.
+    + intros e He. specialize (HA e He). unfold p in HA. apply negb_true_iff in HA. exact HA.
+    + intros e He. specialize (HB e He). unfold p in HB. apply negb_false_iff in HB. exact HB.
+Qed.
+
+Lemma fold_insert_cds_err : forall items e, fold_left insert_cds items (Err e) = Err e.
+Proof. induction items as [|x r IH]; intros e; [reflexivity|]. cbn [fold_left]. exact (IH e). Qed.
+
+Lemma fold_insert_cds_inv : forall items acc s, cds_inv acc -> fold_left insert_cds items (Ok acc) = Ok s -> cds_inv s.
+Proof.
+  induction items as [|x r IH]; intros acc s I H; cbn [fold_left] in H.
+  - injection H as <-. exact I.
+  - destruct (insert_cds (Ok acc) x) as [acc'|e] eqn:E.
+    + exact (IH acc' s (insert_cds_inv acc x acc' I E) H).
+    + rewrite fold_insert_cds_err in H. discriminate.
+Qed.
+
+(* whatever CDS features arrive in whatever order - equal keys, alternative transcripts, origin-crossing genes - the list
+   add_cds_feature stores is re-read (re-added in stored order) as exactly itself *)
+Theorem cds_reload_fixed_point : forall file stored, cds_reload file = Ok stored -> cds_reload stored = Ok stored.
+Proof.
+  intros file stored H. unfold cds_reload in H.
+  assert (I : cds_inv stored) by (apply (fold_insert_cds_inv file [] stored); [left; cbn [length]; lia|exact H]).
+  destruct I as [L|[ks [F S]]].
+  - destruct stored as [|a [|b t]]; try reflexivity. cbn [length] in L. lia.
+  - exact (cds_order_kept stored ks (forall2_mapM _ _ _ _ _ F) S).
+Qed.
+
+(* ... and re-adding never raises when every location has a sort key (what reading guarantees) *)
+Theorem cds_reload_total : forall file, Forall (fun l => sortable l = true) file -> exists stored, cds_reload file = Ok stored.
+Proof.
+  intros file H. unfold cds_reload.
+  assert (G : forall items acc, Forall (fun l => sortable l = true) items -> Forall (fun l => sortable l = true) acc ->
+              exists stored, fold_left insert_cds items (Ok acc) = Ok stored).
+  { induction items as [|x r IH]; intros acc Hi Ha; cbn [fold_left]; [eexists; reflexivity|].
+    inversion Hi as [|? ? Hx Hr]; subst.
+    assert (M : exists ks, mapM feature_key acc = Ok ks).
+    { clear - Ha. induction Ha as [|y t Hy _ IHt]; [eexists; reflexivity|].
+      destruct (sortable_cmp_key 1 y Hy) as [k K]. destruct IHt as [ks Ks].
+      exists (k :: ks). cbn [mapM]. unfold feature_key in *. rewrite K, Ks. reflexivity. }
+    destruct M as [ks Ks]. destruct (sortable_cmp_key 1 x Hx) as [kx Kx].
+    assert (E : exists acc', insert_cds (Ok acc) x = Ok acc' /\ Forall (fun l => sortable l = true) acc').
+    { unfold insert_cds. cbn [bind]. destruct acc as [|a0 r0] eqn:Ea.
+      - eexists. split; [reflexivity|]. apply Forall_cons; [exact Hx|apply Forall_nil].
+      - rewrite <- Ea in *. unfold feature_key in *. rewrite Kx. cbn [bind]. rewrite Ks. cbn [bind].
+        eexists. split; [reflexivity|]. unfold C05.Model.insert_at.
+        apply Forall_forall. intros y Hy. rewrite Forall_forall in Ha. apply in_app_or in Hy.
+        destruct Hy as [Hy|[<-|Hy]]; [|exact Hx|].
+        + apply Ha. rewrite <- (firstn_skipn (C05.Model.bisect_left (fun ke => negb (C04.Model.pair_lt kx ke)) ks) acc).
+          apply in_or_app. left. exact Hy.
+        + apply Ha. rewrite <- (firstn_skipn (C05.Model.bisect_left (fun ke => negb (C04.Model.pair_lt kx ke)) ks) acc).
+          apply in_or_app. right. exact Hy. }
+    destruct E as [acc' [E Fa]]. rewrite E. exact (IH acc' Hr Fa). }
+  exact (G file [] H (Forall_nil _)).
 Qed.
 
 (* two transcripts of one gene: same start (and whatever end), different exon structure with different total length:
@@ -1256,10 +1531,11 @@ Lemma alt_transcripts_witness :
   lstart W_t1 = lstart W_t2 /\ lend W_t1 = lend W_t2.
 Proof. repeat split; reflexivity. Qed.
 
-(* equal keys (same start, same total length): the later arrival is stored first, so the stored order flips on every
-   reload (known finding equal_key_genes_order) *)
-Lemma cds_equal_keys_refuted :
-  exists a b, feature_key a = feature_key b /\ cds_reload [a; b] = Ok [b; a] /\ cds_reload [b; a] = Ok [a; b] /\ a <> b.
+(* equal keys (same start, same total length): the later arrival is stored after the earlier one (bisect_right), so
+   either stored order is re-read as itself (the witness of the repaired finding equal_key_genes_order, where the
+   stored order flipped on every reload) *)
+Lemma cds_equal_keys_repaired :
+  exists a b, feature_key a = feature_key b /\ cds_reload [a; b] = Ok [a; b] /\ cds_reload [b; a] = Ok [b; a] /\ a <> b.
 Proof.
   exists [mkPart 10 40 1], [mkPart 10 40 (-1)]. repeat split; try reflexivity. discriminate.
 Qed.
